@@ -356,7 +356,9 @@ def edges_not_in_inputs(f, var: str):
     if not isinstance(v, (ast.ListComp, ast.GeneratorExp, ast.SetComp)) or len(v.generators) != 1:
         raise AnalysisError(f"C02-D2: {f.loc(asg[0])} `{var}` is not defined by a single-generator comprehension; idiom not recognised")
     g = v.generators[0]
-    if not (isinstance(g.iter, ast.Call) and callee_last(g.iter) == 'edges'):
+    from ..util import inline_temps
+    it = inline_temps(f.node, g.iter)          # `rhs_edges = rule.rhs.edges()` named first
+    if not (isinstance(it, ast.Call) and callee_last(it) == 'edges'):
         return False, f"`{var}` does not range over <rule>.rhs.edges(): {norm(g.iter)}"
     if norm(v.elt) != norm(g.target):
         return False, f"`{var}` does not collect the edges themselves"
